@@ -317,3 +317,71 @@ Proof.
       eapply eof_taken_after_all; eauto.
     + intros e Hin. destruct (XC _ Hin) as [Y | [Y | Y]]; auto. contradiction.
 Qed.
+
+(* ---------- Q-form for the messages before the trailer ---------- *)
+(* fault-free, quiescent, empty wires and inboxes: a stream whose loop waits for the next envelope (LRead) has handed to
+   RecvMsg EVERY message the server's writer accepted under its id - nothing is stuck or lost in between, whatever the
+   caller's context did (a cancelled stream's loop is not in LRead at quiescence); a loop holding message b for a
+   RecvMsg that was not issued has handed over everything before b *)
+Theorem C02_caller_msgs_complete pol ls s c k :
+  Sys.lrun pol Sys.init ls = Some s -> fault_free ls = true ->
+  Sys.quiescent s = true -> Server.inbox (sv s) = [] -> Client.inbox (cl s) = [] ->
+  nth_error (calls (cl s)) c = Some k -> k_unary k = false -> k_pc k = POpen ->
+  (s_loop k = LRead -> msgs c (Client.log (cl s)) = pb (accepted (k_id k) (sv s))) /\
+  (forall b, s_loop k = LHand b -> is_prefix (msgs c (Client.log (cl s)) ++ handpart k) (pb (accepted (k_id k) (sv s)))).
+Proof.
+  intros H Hff Q Hi1 Hi2 Hn Hu Hp.
+  pose proof (proj_c_run _ _ _ _ H) as Hc. pose proof (proj_s_run _ _ _ _ H) as Hs.
+  destruct (all_inv_reach _ _ Hc) as (HI & HS & HL). pose proof (cinv_call _ _ _ HI Hn) as K.
+  pose proof (proj_s_lbl_ok pol ls Sys.init Hff) as Hlo.
+  destruct (sff_fields _ (sff_reach _ _ _ Hs Hlo)) as (_ & Hwf & Hwb & _).
+  unfold Sys.quiescent in Q. repeat (apply andb_prop in Q; destruct Q as [Q ?]).
+  assert (Qc : Client.quiescent (cl s) = true) by assumption.
+  assert (Qs : Server.quiescent (sv s) = true) by assumption.
+  assert (Ec2s : c2s s = []) by (destruct (c2s s); [reflexivity | discriminate]).
+  assert (Es2c : s2c s = []) by (destruct (s2c s); [reflexivity | discriminate]).
+  assert (Hlt : (c < length (calls (cl s)))%nat) by (eapply nth_some_lt; eauto).
+  assert (Einf : inflight (sv s) = []).
+  { unfold inflight. destruct (Server.wr (sv s)) eqn:Ew; auto. exfalso.
+    assert (X : rule_of RWrWrite (sv s) = None) by (apply q_fixed; [exact Qs | exact I]).
+    simpl in X. unfold r_wr_write in X. rewrite Ew, Hwf, Hwb in X. discriminate X. }
+  assert (Etk : tk (Server.log (sv s)) = swrites (Server.log (sv s))).
+  { rewrite (srv_taken_is_written _ _ _ Hs Hlo), Einf, app_nil_r. reflexivity. }
+  destruct (wire_complete_id _ _ _ (k_id k) H Ec2s Es2c Hi1 Hi2) as (_ & W).
+  destruct (PC_sys _ _ _ H _ _ Hn Hp) as (post & EP & Hpost). unfold idr in EP. rewrite W in EP.
+  assert (EA : accepted (k_id k) (sv s) = ctakes c (Client.log (cl s)) ++ bufpart k ++ holdpart c (rl (cl s)) ++ post).
+  { unfold accepted. rewrite Etk. exact EP. }
+  destruct (RE_sys _ _ _ H _ _ Hn Hu) as (R1 & _ & _ & _).
+  split.
+  - intros El.
+    assert (X : r_loop_read c (cl s) = None) by (apply quiescent_call; [exact Qc | exact Hlt | simpl; tauto]).
+    unfold r_loop_read in X. rewrite Hn, El in X.
+    destruct (cbuf (k_chan k)) as [eb|] eqn:Eb.
+    { exfalso. cbv zeta in X.
+      repeat match type of X with
+             | (if ?b then _ else _) = None => destruct b
+             | match ?x with _ => _ end = None => destruct x
+             end; discriminate X. }
+    destruct (cclosed (k_chan k)) eqn:Ecl; [discriminate X|].
+    assert (Er : k_reg k = true).
+    { destruct (k_reg k) eqn:Er; auto. pose proof (ki_unreg_closed _ K Er) as Y. rewrite Ecl in Y.
+      assert (loop_alive k = true) by (unfold loop_alive; rewrite El; reflexivity). apply Y. auto. }
+    assert (Eh : holdpart c (rl (cl s)) = []).
+    { unfold holdpart. destruct (rl (cl s)) as [|c1 e1|] eqn:Erl; auto. destruct (Nat.eqb_spec c1 c) as [->|]; auto. exfalso.
+      assert (Y : r_rl_unblock (cl s) = None) by (apply ClientBase.quiescent_none; [exact Qc | left; reflexivity]).
+      unfold r_rl_unblock in Y. rewrite Erl, Hn, Eb in Y. discriminate Y. }
+    unfold bufpart in EA. rewrite Eb, Eh, (Hpost Er), !app_nil_r in EA. rewrite EA.
+    rewrite El in R1. unfold handpart in R1. rewrite El in R1. rewrite (R1 eq_refl), app_nil_r. reflexivity.
+  - intros b El. rewrite El in R1. rewrite <- (R1 eq_refl). rewrite EA. apply pb_prefix. eexists. reflexivity.
+Qed.
+
+(* SendMsg returns nil only when it has written its message: the middle case of C02_link_send is unreachable *)
+Theorem C02_link_send_reach ls s c k b rest s' :
+  Client.lrun Client.init ls = Some s -> nth_error (calls s) c = Some k -> s_sendq k = Some b :: rest -> r_send c s = Some s' ->
+  (exists e, Client.log s' = Client.log s ++ [EvSendRet c (Some e)]) \/
+  Client.log s' = Client.log s ++ [EvWrite (body_env (k_id k) b); EvSendRet c None].
+Proof.
+  intros Hr Hn Hq H. destruct (C02_link_send _ _ _ _ _ _ Hn Hq H) as [X | [(D & E & _) | X]]; auto.
+  exfalso. destruct (all_inv_reach _ _ Hr) as (HI & _). destruct (ki_done_dead _ (cinv_call _ _ _ HI Hn) D) as (_ & Y & _).
+  rewrite E in Y. discriminate Y.
+Qed.
